@@ -148,7 +148,16 @@ where
                     self.ended = true;
                 }
                 Poll::Ready(None) => self.ended = true,
-                Poll::Pending => break,
+                Poll::Pending => {
+                    // C14: control went back to the executor: nothing written may remain unflushed
+                    // (this transport's flush always succeeds at once)
+                    let mut s = self.shared.lock().unwrap();
+                    if s.flushed != s.wire.len() && !s.violations.iter().any(|v| v.starts_with("C14: went idle")) {
+                        let n = s.wire.len() - s.flushed;
+                        s.violations.push(format!("C14: went idle (Pending) with {n} written response(s) not flushed"));
+                    }
+                    break;
+                }
             }
         }
         self.poll_handlers();
@@ -213,7 +222,7 @@ fn answerable_model(script: &[Msg], id: u64) -> usize {
 
 fn check(s: &Shared, script: &[Msg], limit: Option<usize>, ended: bool, half_close: bool, in_flight_after: usize, handlers_pending_throughout: bool, model_applies: bool, desc: &str) -> Vec<String> {
     let mut errs: Vec<String> = vec![];
-    if let Some(v) = s.violations.first() {
+    for v in &s.violations {
         errs.push(format!("{v}; {desc}"));
     }
     let n_req = |id: u64| script.iter().filter(|m| **m == Msg::Req(id)).count();
@@ -226,6 +235,9 @@ fn check(s: &Shared, script: &[Msg], limit: Option<usize>, ended: bool, half_clo
         }
         if handlers_pending_throughout && limit.is_none() && invocations > accepted_model(script, id) {
             errs.push(format!("C08: {invocations} handler invocations for id {id}, but a request reusing an id that is still in flight must be ignored (at most {} can be accepted); {desc}", accepted_model(script, id)));
+        }
+        if limit.is_none() && handlers_pending_throughout && all_responses < answerable_model(script, id) {
+            errs.push(format!("C04/C08: only {all_responses} response(s) bearing id {id} although {} request(s) for it were accepted and never cancelled, and every handler has finished: a request lost its response (e.g. to a cancellation that was not meant for it); wire {:?}; {desc}", answerable_model(script, id), s.wire));
         }
         if limit.is_none() && model_applies && all_responses > answerable_model(script, id) {
             errs.push(format!("C04/C08: {all_responses} response(s) bearing id {id} although at most {} request(s) for it were accepted and not cancelled; wire {:?}; {desc}", answerable_model(script, id), s.wire));
